@@ -86,6 +86,29 @@ def make_mapping(spec, rng):
     return m
 
 
+def evil_twin(spec, rng):
+    """an earlier problem that reuses every name of the spec under test but contradicts it:
+    reversed list orders, swapped precedences, shifted values.  Anything that leaks from one
+    problem to the next *by name* (z3 constants are shared by name) or through a shared
+    mutable container turns such a prelude into a changed verdict of the later problem."""
+    s = copy.deepcopy(spec)
+    s["name"] = "evil"
+    s["objectives"] = []
+    for c in s.get("constraints", []):
+        if isinstance(c.get("tasks"), list):
+            c["tasks"] = list(reversed(c["tasks"]))
+        if c["kind"] == "TaskPrecedence":
+            c["before"], c["after"] = c["after"], c["before"]
+        if c["kind"] in ("TaskStartAt", "TaskEndAt", "TaskStartAfter", "TaskEndBefore"):
+            c["value"] = c["value"] + rng.choice([1, 2, 3])
+        if c["kind"] in ("TasksStartSynced", "TasksEndSynced") and rng.random() < 0.5:
+            c["kind"] = "TasksDontOverlap"
+    for t in s["tasks"]:
+        if t.get("release") is not None:
+            t["release"] += 1
+    return s
+
+
 def rename_handle(name, m):
     parts = name.split(":")
     out = [parts[0]]
@@ -122,12 +145,15 @@ class C14(Check):
     nontrivial_rule = ("both twins (renamed + permuted) and both executions (pristine / after prelude) gave a definite verdict that was "
                        "compared, or a cross-pin was judged")
     expected_probes = ["verdict_compared:rename", "verdict_compared:prelude", "optimum_compared:rename", "optimum_compared:prelude",
-                       "cross:A->B:admitted", "cross:B->A:admitted", "prelude_problems", "prelude_with_debug", "prelude_with_objective"]
+                       "cross:A->B:admitted", "cross:B->A:admitted", "prelude_problems", "prelude_with_debug", "prelude_with_objective", "prelude_evil_twin"]
 
     def plan(self, run_seed, tier):
         rng = keyed_rng(run_seed, "plan")
         big = tier == "thorough"
         kinds = rng.sample(SAFE_CONSTRAINTS, 4)
+        if rng.random() < 0.4:
+            # list-valued, order-sensitive kinds: the ones most exposed to state shared between problems
+            kinds = ["OrderedTaskGroup", "UnorderedTaskGroup", "TasksContiguous", "TaskPrecedence"]
         with_obj = rng.random() < 0.45
         prof = gen.profile(
             n_tasks=(1, 5 if big else 4), p_optional=0.25, p_zero=0.12, p_variable=0.3, p_release=0.15, p_due=0.15, n_workers=(0, 3), p_select=0.45,
@@ -165,6 +191,9 @@ class C14(Check):
                 pcfg["optimizer"] = "optimize"
                 pcfg["optimize_priority"] = rng.choice(["lex", "box", "weight"])
             pcfg = self.safe_config(pcfg, pspec)
+            if k == 0 and rng.random() < 0.5:
+                pspec = evil_twin(spec, keyed_rng(run_seed, "evil"))
+                pcfg = self.safe_config({k2: v for k2, v in pcfg.items() if k2 != "optimizer" and k2 != "optimize_priority"}, pspec)
             prelude.append({"id": f"P{k}", "spec": pspec, "config": pcfg, "prelude": True})
         script = []
         for p in prelude:
@@ -224,6 +253,8 @@ class C14(Check):
                 v.probe("prelude_with_debug")
             if any(c.get("prelude") and c["spec"].get("objectives") for c in plan["clients"]):
                 v.probe("prelude_with_objective")
+            if any(c.get("prelude") and c["spec"].get("name") == "evil" for c in plan["clients"]):
+                v.probe("prelude_evil_twin")
         kinds = sorted(set("Objective" + o["kind"] for o in spec.get("objectives", []))) or ["plain"]
         if any(t.get("optional") for t in spec["tasks"]):
             kinds.append("optional")
